@@ -92,6 +92,9 @@ Proof.
       destruct (get_or [] (assoc name (r_extends r))).
       * apply bindL_sim; [apply IH; exact R|]. exact Hk.
       * apply bindL_sim; [apply IH; exact R|]. intros rb L1 L1' R1. apply Hk; exact R1.
+    + (* RenderP *)
+      apply bindL_sim; [apply load_counted_sim; exact R|]. intros t L1 L1' R1.
+      apply bindL_sim; [apply IH; exact R1|]. intros rb L2 L2' R2. apply Hk; exact R2.
 Qed.
 
 Definition simC {A} (x x' : res A * cachet) : Prop := fst x = fst x' /\ Q (snd x) (snd x').
@@ -126,6 +129,10 @@ Proof.
       * destruct (ldQ _ _ name R) as [E1 E2]. split; assumption.
       * intros t c1 c1' R1. apply bindC_sim; [apply IH; exact R1|exact Hk].
     + (* Extends *)
+      apply bindC_sim.
+      * destruct (ldQ _ _ name R) as [E1 E2]. split; assumption.
+      * intros t c1 c1' R1. apply bindC_sim; [apply IH; exact R1|exact Hk].
+    + (* RenderP *)
       apply bindC_sim.
       * destruct (ldQ _ _ name R) as [E1 E2]. split; assumption.
       * intros t c1 c1' R1. apply bindC_sim; [apply IH; exact R1|exact Hk].
